@@ -305,9 +305,61 @@ func selfMatchRefs(r *gen.Rand, v any, pat map[string]any) bool {
 	return changed
 }
 
+// genC19PlainThenFailing: a document without any directive, an output, then a
+// layer that brings directives along and FAILS part-way (a useless override,
+// a $delete of nothing), then outputs again: whatever the failed merge left
+// behind must be evaluated like any other state.
+func genC19PlainThenFailing(r *gen.Rand, c *C19Case) {
+	tc := gen.DefaultTreeCfg()
+	tc.Safe = true
+	tc.Strs = []string{"x", "y", "hello", "v1", "prod"}
+	base := tc.Map(r, 2)
+	base["keep"] = 1
+	base["id"] = "d0"
+	patch := map[string]any{}
+	ks := gen.SortedKeys(base)
+	for _, k := range ks {
+		if k == "id" {
+			continue
+		}
+		switch r.Intn(4) {
+		case 0:
+			patch[k] = `$"{keep}-{id}"`
+		case 1:
+			patch[k] = "$env:VERIF_A"
+		case 2:
+			patch[k] = map[string]any{"$encode": "json", "$value": "q"}
+		}
+	}
+	patch["zz_new"] = `$"{keep}"`
+	// ... and one entry that makes the merge fail
+	switch r.Intn(3) {
+	case 0:
+		patch["keep"] = 1 // useless override
+	case 1:
+		patch["nosuch_"+gen.PickAny(r, ks)] = "$delete"
+	default:
+		patch["id"] = []any{"type", "clash"}
+		patch["keep"] = 1
+	}
+	c.Ops = []wire.Op{
+		{Op: "MergeDocument", ID: "L0|doc0", Data: &wire.Tree{V: base}},
+		genObserve(r, 0),
+		{Op: "MergeDocument", ID: "L1|doc0", Parents: []string{"L0|doc0"}, Data: &wire.Tree{V: patch}},
+		genObserve(r, 1),
+		{Op: "Documents"},
+		{Op: "Output", Format: "json"},
+	}
+	c.Planted = []string{"plain-then-failing-layer"}
+}
+
 func genC19(r *gen.Rand, maxCalls int) *C19Case {
 	c := &C19Case{Files: map[string]string{}}
 	c.Sched = wire.Sched{Mode: "Hash", Seed: r.U64() >> 1, Coin: gen.PickAny(r, []float64{0, 0.5, 1})}
+	if r.Chance(0.06) {
+		genC19PlainThenFailing(r, c)
+		return c
+	}
 	cfg := gen.AllOn(r)
 	if r.Chance(0.3) {
 		cfg = gen.SwarmProgCfg(r)
@@ -473,13 +525,17 @@ func judgeC19(c *C19Case, tasks []taskOutcome, freshOf []int) c19Verdict {
 			if po != so {
 				return c19Verdict{Clause: "merge-result-differs-after-output", Op: i, Got: po, Want: so}
 			}
-			if po != "ok" {
-				// the state after a failed merge is not specified
-				return v
+			if po != "ok" && po != "err" {
+				return v // panic / budget / crash: C08's subject
 			}
 			if sIdx >= len(S.Ops) {
 				return v
 			}
+			// (what a FAILED merge leaves behind is not specified and may
+			// depend on the iteration order — but the schedule of a case is
+			// stateless (rank = H(seed, site, key)), so the parser that was
+			// asked for output and the one that was not must have been left
+			// in the same state, and later outputs must agree as well)
 			lastS = snapString(S.Ops[sIdx].Docs)
 		}
 		if isOutputOp(op.Op) {
